@@ -156,6 +156,40 @@ def build_v2(spec):
     return y, "\n".join(co)
 
 
+V2_LLM_COLANG = '''
+import core
+import llm
+
+flow main
+  activate llm continuation
+  activate greeting
+  activate value flow
+  activate say like
+
+flow greeting
+  user expressed greeting
+  bot say "PRE[hello] predefined answer."
+
+flow user expressed greeting
+  """User expressed greeting in any way or form."""
+  user said "hi"
+
+flow value flow
+  user said "value please"
+  $v = ..."Produce a short value"
+  bot say $v
+
+flow say like
+  user said "paraphrase please"
+  bot say something like "a nice day"
+'''
+
+
+def build_v2_llm(spec):
+    """Colang 2.x LLM flows: intent detection, flow continuation / generation, value generation."""
+    return "colang_version: 2.x\n" + _yaml_models(), V2_LLM_COLANG
+
+
 def _v2_rail_flow(side, i, r):
     rail = "%s%d" % (side, i)
     exc = "InputRailException" if side == "in" else "OutputRailException"
@@ -195,6 +229,17 @@ class Responder:
         if not isinstance(prompt, str):
             prompt = "\n".join(str(m.get("content")) for m in prompt)
         tok = last_tok(prompt)
+        if self.spec.get("mode") == "v2_llm":
+            # Colang 2.x generation does not label its LLM calls: infer the step from the prompt's last line
+            tail = prompt.rstrip().split("\n")[-1].strip()
+            if tail == "user intent:":
+                last_user = prompt.split("user action:")[-1]
+                return " user expressed greeting" if "hello" in last_user else " user asked something else"
+            if tail == "bot intent:":
+                return ' bot provided info\nbot action: bot say "%s"' % self.llm_text(tok, "c")
+            if tail.startswith("$") and tail.endswith("="):
+                return ' "%s"' % self.llm_text(tok, "v")
+            return '"%s"' % self.llm_text(tok, "x")
         if task == "self_check_input":
             rail = self._shipped_rail("in")
             return "Yes" if self.verdict(rail, tok) == "block" else "No"
@@ -265,6 +310,8 @@ class RailsWorld:
         self.llm = llm_peer.make_llm(self.llm_world, streaming=bool(spec.get("streaming")))
         if spec.get("colang", "1.0") == "1.0":
             y, co = build_v1(spec)
+        elif spec.get("mode") == "v2_llm":
+            y, co = build_v2_llm(spec)
         else:
             y, co = build_v2(spec)
         self.yaml, self.colang = y, co
@@ -355,7 +402,9 @@ class RailsWorld:
             if any(r["kind"] == "shipped" for r in self.spec.get("%s_rails" % side, [])):
                 self._wrap_shipped(side, name, "SelfCheckInputAction" if side == "in" else "SelfCheckOutputAction")
 
-        if v2:
+        if v2 and self.spec.get("mode") == "v2_llm":
+            pass
+        elif v2:
             self.app.register_action(sim_rail, "SimRailAction")
             self.app.register_action(sim_generate, "SimGenerateAction")
         else:
